@@ -78,6 +78,71 @@ M("C05", "counter-little-endian", LAN, 'payload = packet_id.to_bytes(2, "big") +
 M("C05", "no-block-check", LAN, "        if len(payload) % 16 != 0:\n            raise ProtocolError(\n                f\"Invalid encrypted payload length: {len(payload)}\")\n", "")
 M("C05", "tag-ignores-header", LAN, "if sha256(bytes(header) + decrypted_payload).digest() != rx_hash:", "if sha256(bytes(header[:5]) + decrypted_payload).digest() != sha256(bytes(header[:5]) + decrypted_payload).digest() or len(rx_hash) != 32:")
 
+# ---- C10
+M("C10", "setpoint-mask-7", CMD, "temperature = (integral_temp - 16) & 0xF", "temperature = (integral_temp - 16) & 0x7")
+M("C10", "half-degree-primary-only", CMD, "temperature |= 0x10 if (fractional_temp > 0) else 0", "temperature |= 0x10 if (fractional_temp > 0 and temperature_alt == 0) else 0")
+M("C10", "half-degree-never", CMD, "        temperature |= 0x10 if (fractional_temp > 0) else 0\n\n        mode", "        mode")
+M("C10", "swap-sleep-turbo", CMD, "sleep = 0x01 if self.sleep else 0\n        turbo = 0x02 if self.turbo else 0", "sleep = 0x02 if self.sleep else 0\n        turbo = 0x01 if self.turbo else 0")
+M("C10", "eco-bit-0x10", CMD, "eco = 0x80 if self.eco else 0", "eco = 0x10 if self.eco else 0")
+M("C10", "humidity-mask-3f", CMD, "humidity = self.target_humidity & 0x7F", "humidity = self.target_humidity & 0x3F")
+M("C10", "swap-freeze-indep-aux", CMD, "            freeze_protect,\n            # Independent aux heat\n            independent_aux_heat,", "            independent_aux_heat,\n            # Independent aux heat\n            freeze_protect,")
+M("C10", "apply-eco-into-turbo", DEV, "cmd.turbo = or_default(self._turbo, False)", "cmd.turbo = or_default(self._eco, False)")
+M("C10", "aux-split-inverted", DEV, "cmd.aux_heat = self._aux_mode == AirConditioner.AuxHeatMode.AUX_HEAT\n        cmd.independent_aux_heat = self._aux_mode == AirConditioner.AuxHeatMode.AUX_ONLY", "cmd.aux_heat = self._aux_mode == AirConditioner.AuxHeatMode.AUX_ONLY\n        cmd.independent_aux_heat = self._aux_mode == AirConditioner.AuxHeatMode.AUX_HEAT")
+M("C10", "alt-mask-f", CMD, "temperature_alt = (integral_temp - 12) & 0x1F", "temperature_alt = (integral_temp - 12) & 0xF")
+M("C10", "swing-mask-3", CMD, "swing_mode = 0x30 | (self.swing_mode & 0x3F)", "swing_mode = 0x30 | (self.swing_mode & 0x3)")
+M("C10", "beep-bit-80", CMD, "        beep = 0x40 if self.beep_on else 0\n        power = 0x1 if self.power_on else 0", "        beep = 0x80 if self.beep_on else 0\n        power = 0x1 if self.power_on else 0")
+M("C10", "follow-me-dropped-when-turbo", CMD, "follow_me = 0x80 if self.follow_me else 0", "follow_me = 0x80 if (self.follow_me and not self.turbo) else 0")
+M("C10", "humidity-only-in-dry", DEV, "cmd.target_humidity = or_default(self._target_humidity, 40)", "cmd.target_humidity = or_default(self._target_humidity, 40) if self._operational_mode in (AirConditioner.OperationalMode.DRY, AirConditioner.OperationalMode.SMART_DRY) else 40")
+
+# ---- C11
+M("C11", "temp-offset-40", CMD, "temperature = (data - 50) / 2", "temperature = (data - 40) / 2")
+M("C11", "negative-tenths-sign", CMD, "return int(temperature) + (decimals if temperature >= 0 else -decimals)", "return int(temperature) + decimals")
+M("C11", "tenths-nibbles-swapped", CMD, "payload[11], (payload[15] & 0xF) / 10, self.fahrenheit)", "payload[11], (payload[15] >> 4) / 10, self.fahrenheit)")
+M("C11", "alt-plus-13", CMD, "self.target_temperature = target_temperature_alt + 12", "self.target_temperature = target_temperature_alt + 13")
+M("C11", "eco-mask-80", CMD, "self.eco = bool(payload[9] & 0x10)", "self.eco = bool(payload[9] & 0x80)")
+M("C11", "humidity-guard-21", CMD, "if len(payload) < 20:", "if len(payload) < 21:")
+M("C11", "freeze-guard-23", CMD, "if len(payload) < 22:", "if len(payload) < 23:")
+M("C11", "custom-fan-to-default", DEV, "                    self._fan_speed = cast(int, res.fan_speed)", "                    self._fan_speed = AirConditioner.FanSpeed.DEFAULT")
+M("C11", "display-whole-byte", CMD, "self.display_on = ((payload[14] & 0x70) != 0x70)", "self.display_on = (payload[14] != 0x70)")
+M("C11", "sentinel-zero-too", CMD, "        if data == 0xFF:\n            return None", "        if data == 0xFF or data == 0:\n            return None")
+M("C11", "alt-half-degree-lost", CMD, "            self.target_temperature = target_temperature_alt + 12\n            self.target_temperature += 0.5 if payload[2] & 0x10 else 0.0", "            self.target_temperature = target_temperature_alt + 12")
+M("C11", "humidity-default-invented", DEV, "self._target_humidity = res.target_humidity", "self._target_humidity = res.target_humidity if res.target_humidity is not None else 40")
+# (aux-precedence and fahrenheit-tenths-used are equivalent for C11: the statement fixes neither)
+M("C11", "turbo-alt-bit-ignored", CMD, "        self.turbo |= bool(payload[10] & 0x2)\n", "")
+
+# ---- C12
+M("C12", "msgid-mask-7f", CMD, "return Command._message_id & 0xFF", "return Command._message_id & 0x7F")
+M("C12", "crc-without-id", CMD, "return super().tobytes(payload + bytes([crc8.calculate(payload)]))", "return super().tobytes(payload + bytes([crc8.calculate(data)]))")
+M("C12", "length-plus-11", FRAME, "header[1] = len(data) + self._HEADER_LENGTH", "header[1] = len(data) + self._HEADER_LENGTH + 1")
+M("C12", "toggle-display-control-type", CMD, "        # For whatever reason, toggle display uses a request type...\n        super().__init__(frame_type=FrameType.QUERY)", "        super().__init__(frame_type=FrameType.CONTROL)")
+M("C12", "crc-table-typo", "msmart/crc8.py", "0xB6, 0xE8, 0x0A, 0x54, 0xD7, 0x89, 0x6B, 0x35", "0xB6, 0xE8, 0x0A, 0x54, 0xD7, 0x89, 0x6B, 0x34")
+M("C12", "checksum-includes-start", FRAME, "frame.append(Frame.checksum(frame[1:]))", "frame.append(Frame.checksum(frame))")
+M("C12", "getprops-count-fixed", CMD, "            0xB1,  # Property request\n            len(self._properties),", "            0xB1,  # Property request\n            min(len(self._properties), 7),")
+M("C12", "msgid-skip-zero", CMD, "        Command._message_id += 1\n        return Command._message_id & 0xFF", "        Command._message_id += 1\n        if Command._message_id & 0xFF == 0:\n            Command._message_id += 1\n        return Command._message_id & 0xFF")
+M("C12", "ieco-short-value", CMD, "return bytes([0, 1, args[0]]) + bytes(10)", "return bytes([0, 1, args[0]]) + bytes(9)")
+M("C12", "caps-additional-wrong-page", CMD, "payload = bytes([0xB5, 0x01, 0x01, 0x1])", "payload = bytes([0xB5, 0x01, 0x00, 0x1])")
+
+# ---- C13
+M("C13", "no-frame-validate", CMD, "            # Validate the frame\n            Frame.validate(frame_mv)\n", "")
+M("C13", "checksum-skips-length", FRAME, "checksum = Frame.checksum(frame[1:-1])", "checksum = Frame.checksum(frame[2:-1]) + 0\n        checksum = (checksum - frame[1]) & 0xFF if False else Frame.checksum(frame[2:-1])")
+M("C13", "body-check-or", CMD, "if payload_crc != payload[-1] and payload_checksum != payload[-1]:", "if payload_crc != payload[-1] and payload_checksum != payload[-1] and payload[0] != 0xC1:")
+M("C13", "supported-from-raw-count", DEV, "self._supported = len(valid_responses) > 0", "self._supported = len(responses) > 0")
+M("C13", "online-from-command-count", DEV, "self._online = len(responses) > 0", "self._online = len(commands) > 0")
+M("C13", "crc-only-for-state", CMD, "if response_class != PropertiesResponse:", "if response_class == StateResponse:")
+M("C13", "body-check-last-two", CMD, "payload_crc = crc8.calculate(payload[0:-1])", "payload_crc = crc8.calculate(payload[1:-1]) if payload[0] == 0xB5 else crc8.calculate(payload[0:-1])")
+M("C13", "invalid-frame-still-used", DEV, "                _LOGGER.error(e)\n                continue", "                _LOGGER.error(e)\n                if isinstance(e, InvalidFrameException):\n                    continue\n                response = Response(memoryview(data)[10:-2])")
+
+# ---- C14
+# (length-guard removals are contained by the IndexError mapping of fix 24ccb7c and are equivalent for C14)
+M("C14", "breeze-enum-unguarded", DEV, "self._breeze_mode = (AirConditioner.BreezeMode(value) if value in AirConditioner.BreezeMode.list()\n                                     else AirConditioner.BreezeMode.OFF)", "self._breeze_mode = AirConditioner.BreezeMode(value)")
+M("C14", "swing-angle-enum-unguarded", DEV, "                    AirConditioner.SwingAngle.get_from_value(angle))\n\n            if (angle := res.get_property(PropertyId.SWING_UD_ANGLE)) is not None:", "                    AirConditioner.SwingAngle(angle))\n\n            if (angle := res.get_property(PropertyId.SWING_UD_ANGLE)) is not None:")
+M("C14", "mode-enum-unguarded", DEV, "AirConditioner.OperationalMode.get_from_value(res.operational_mode))", "AirConditioner.OperationalMode(res.operational_mode))")
+M("C14", "catch-only-frame-exception", DEV, "            except (InvalidFrameException, InvalidResponseException) as e:", "            except InvalidFrameException as e:")
+M("C14", "break-on-invalid-frame", DEV, "                _LOGGER.error(e)\n                continue", "                _LOGGER.error(e)\n                break")
+M("C14", "truncated-not-mapped", CMD, "        except IndexError as e:\n            # Frame or payload is shorter than its format requires\n            raise InvalidResponseException(\n                f\"Frame '{frame.hex()}' is truncated.\") from e", "        except IndexError as e:\n            raise")
+M("C14", "caps-match-by-id-only", DEV, "if response.id == response_id and isinstance(response, response_class):", "if response.id == response_id:")
+M("C14", "unknown-id-raises", CMD, "            # Default to base class\n            response_class = Response\n", "            # Default to base class\n            response_class = Response\n            if frame_mv[10] < 0xA0:\n                raise ValueError(\"unknown response\")\n")
+
 
 def apply_mutant(src_root: str, file: str, old: str, new: str) -> None:
     p = os.path.join(src_root, file)
